@@ -179,8 +179,10 @@ class _ParseTreeProcessor(parsimonious.NodeVisitor):
     def visit_line(self, node: _Node, children: _Children) -> None:
         _ = children
         if len(node.text.strip()) == 0:
-            # Line is empty (possibly except for blanks), flush comment
-            self._flush_comment()
+            # Line is empty (possibly except for blanks), flush comment.
+            # Empty lines above the header comment end nothing: the header comment is yet to come.
+            if not (self._comment_is_header and self._comment == ""):
+                self._flush_comment()
 
     def visit_end_of_line(self, _n: _Node, _c: _Children) -> None:
         self._current_line_number += 1
